@@ -337,22 +337,82 @@ def c1(repo: Repo) -> RuleResult:
         res.unsure(f"C1: {e}")
 
     # ---- enum value overflow / duplicates / duplicate field numbers
-    def membership(qual: str, cls: str, want_tests: Set[str], example: str) -> None:
-        fi2 = m.func("_ast.py", qual)
-        rs2 = _raises_of(fi2.node, cls)
-        res.inst(part="membership", error=cls, where=qual, raises=len(rs2))
-        if not rs2:
-            res.bad(Finding("C1", fi2.rel, fi2.node.lineno, qual, "", f"{cls} is no longer raised: `{ERROR_CATALOGUE[cls]}` is not enforced", witness=example, tag=f"{cls}:missing"))
-            return
-        conds = {("" if truth else "not ") + src_of(t) for t, truth in facts_at(rs2[0], fi2.node, skip_raise_siblings=True)}
-        if not (conds & want_tests) or len(conds) != 1:
-            res.bad(Finding("C1", fi2.rel, rs2[0].lineno, qual, str(sorted(conds)), f"{cls} is raised under {sorted(conds)}, expected one of {sorted(want_tests)}", witness=example, tag=f"{cls}:form"))
+    def membership(qual: str, cls: str, spec: Any, test_text: str, example: str) -> None:
+        """`cls` is raised on exactly the paths of the validator on which `spec` holds.  spec(path)
+        -> True / False / None (the path does not decide it, e.g. an earlier error ended it)."""
+        cname, meth = qual.split(".")
+        try:
+            c_ = m.cls(cname, "_ast.py")
+            f_ = m.lookup(c_, meth)
+            if f_ is None:
+                raise Inconclusive(f"{qual} vanished")
+            prim = ("nbits", "nbytes", "is_frozen", "ahead_nbits", "fields", "sorted_fields", "value_to_names", "number_to_field", "element_type_constraints")
+            fl_ = compiler_flow(repo, cname, "_ast.py", primitives=prim, pure=prim + ("from_token",))
+            from .normal import V as _V1
 
-    membership("Enum.validate_enum_field_on_push", "EnumFieldValueOverflow", {"field.value.bit_length() > self.nbits()", "field.value.bit_length() > self.type.nbits()", "field.value >= 1 << self.nbits()", "field.value > (1 << self.nbits()) - 1"}, "enum E : uint2 { A = 4 }  (and A = 3 must pass)")
-    membership("Enum.validate_enum_field_on_push", "DuplicatedEnumFieldValue", {"field.value in self.value_to_names()"}, "enum E : uint2 { A = 1; B = 1 }")
-    membership("Message.validate_message_field_on_push", "DuplicatedMessageFieldNumber", {"field.number in self.number_to_field()"}, "message M { bool a = 1; bool b = 1 }")
-    membership("Array.validate_array_element_type", "UnsupportedArrayType", {"not isinstance(self.element_type, self.element_type_constraints())"}, "type A = byte[2]; message M { A[2] x = 1 }")
-    membership("Alias.validate_type", "InvalidAliasedType", {"isinstance(self.type, Definition)"}, "message M {} type A = M")
+            prm = [a_.arg for a_ in f_.node.args.args]
+            env = {prm[0]: _V1("self")}
+            if len(prm) > 1:
+                env[prm[1]] = _V1("field")
+            paths = fl_.run(f_.node, env)
+        except Inconclusive as e:
+            res.unsure(f"C1: {e}")
+            return
+        n_raise = 0
+        wrong = None
+        for p_ in paths:
+            raised = p_.done == "raise" and any(e.kind == "raise" and e.name.split(".")[0] == cls for e in p_.effects)
+            n_raise += int(raised)
+            holds = spec(p_)
+            if holds is None:
+                if raised:
+                    wrong = f"raised under {p_.guard_text()}, which does not decide `{test_text}`"
+                continue
+            if holds != raised:
+                wrong = ("not raised" if holds else "raised") + f" under {p_.guard_text()}"
+        res.inst(part="membership", error=cls, where=qual, raises=n_raise)
+        if n_raise == 0:
+            res.bad(Finding("C1", f_.rel, f_.node.lineno, qual, "", f"{cls} is no longer raised: `{ERROR_CATALOGUE[cls]}` is not enforced", witness=example, tag=f"{cls}:missing"))
+        elif wrong:
+            res.bad(Finding("C1", f_.rel, f_.node.lineno, qual, wrong, f"{cls} is not raised exactly under `{test_text}`: {wrong}", witness=example, tag=f"{cls}:form"))
+
+    def lit_of(kind: str, a_: str, b_: Any) -> Any:
+        def spec(p_: Any) -> Optional[bool]:
+            for k_, t_ in p_.guards:
+                if k_[0] == kind and kind == "contains" and _show(k_[1]) == a_ and _show(k_[2]) == b_:
+                    return t_
+                if k_[0] == kind and kind == "isinstance" and _show(k_[1]) == a_ and tuple(k_[2]) == tuple(b_):
+                    return t_
+            return None
+
+        return spec
+
+    def overflow_spec(p_: Any) -> Optional[bool]:
+        # folded over (value, width): the member does not fit iff value.bit_length() > nbits
+        verdicts = set()
+        for v_ in (0, 1, 2, 3, 4, 7, 8, 255, 256):
+            for n_ in (1, 2, 3, 8):
+                repl = by_name({"field.value": v_}, {"field.value.bit_length": v_.bit_length(), "bit_length": v_.bit_length(), "self.nbits": n_, "nbits": n_, "self.type.nbits": n_})
+                own = [(k_, t_) for k_, t_ in p_.guards if k_[0] == "cmp"]
+                vals = [lit_value(k_, t_, repl) for k_, t_ in own]
+                if any(x is None for x in vals):
+                    return None
+                feasible_here = all(vals)
+                if not own:
+                    return None
+                verdicts.add((feasible_here, v_.bit_length() > n_))
+        # the path is the overflow path iff it is feasible exactly at the overflowing grid points
+        if all(f_ == o_ for f_, o_ in verdicts):
+            return True
+        if all((not f_) or (not o_) for f_, o_ in verdicts):
+            return False
+        return None
+
+    membership("Enum.validate_enum_field_on_push", "EnumFieldValueOverflow", overflow_spec, "field.value.bit_length() > self.nbits()", "enum E : uint2 { A = 4 }  (and A = 3 must pass)")
+    membership("Enum.validate_enum_field_on_push", "DuplicatedEnumFieldValue", lit_of("contains", "self.value_to_names()", "field.value"), "field.value in self.value_to_names()", "enum E : uint2 { A = 1; B = 1 }")
+    membership("Message.validate_message_field_on_push", "DuplicatedMessageFieldNumber", lit_of("contains", "self.number_to_field()", "field.number"), "field.number in self.number_to_field()", "message M { bool a = 1; bool b = 1 }")
+    membership("Array.validate_array_element_type", "UnsupportedArrayType", (lambda p_: (lambda v: None if v is None else not v)(lit_of("isinstance", "self.element_type", ("self.element_type_constraints()",))(p_))), "not isinstance(self.element_type, self.element_type_constraints())", "type A = byte[2]; message M { A[2] x = 1 }")
+    membership("Alias.validate_type", "InvalidAliasedType", lit_of("isinstance", "self.type", ("Definition",)), "isinstance(self.type, Definition)", "message M {} type A = M")
 
     # validators are actually dispatched from the on-push hooks
     for qual, test, callee in (
@@ -433,6 +493,14 @@ def c1(repo: Repo) -> RuleResult:
             continue
         v = d["validator"]
         got = None
+        if isinstance(v, ast.Name):
+            # a named predicate of options.py with a single `return <expression>`
+            om = m.mod("bitproto/options.py")
+            hf = om.funcs.get(v.id)
+            if hf is not None and len(hf.node.args.args) == 1:
+                body_ = [b_ for b_ in hf.node.body if not (isinstance(b_, ast.Expr) and isinstance(b_.value, ast.Constant))]
+                if len(body_) == 1 and isinstance(body_[0], ast.Return) and body_[0].value is not None:
+                    v = ast.Lambda(args=hf.node.args, body=body_[0].value)
         if isinstance(v, ast.Lambda) and len(v.args.args) == 1:
             var = v.args.args[0].arg
             # accepted = lambda body true
@@ -800,10 +868,22 @@ def a7(repo: Repo) -> RuleResult:
     res.inst(part="key", memoised_functions=n_memo)
     # the condition itself
     cond = m.func("_ast.py", "cache_if_frozen_condition").node
-    rets = [n for n in ast.walk(cond) if isinstance(n, ast.Return) and n.value is not None]
-    res.inst(part="condition", returns=[src_of(r.value) for r in rets])
-    positive = [r for r in rets if not (isinstance(r.value, ast.Constant) and r.value.value is False)]
-    if len(positive) != 1 or src_of(positive[0].value) not in ("getattr(self, '__frozen__', False)", "self.is_frozen()", "self.__frozen__"):
+    from .normal import show as _shc
+    from .pyflow import PyFlow as _PFc
+
+    try:
+        prm_c = [a_.arg for a_ in cond.args.args]
+        recv_txt = f"{cond.args.vararg.arg}[0]" if cond.args.vararg is not None else (f"{prm_c[1]}[0]" if len(prm_c) > 1 else "args[0]")
+        mod_c = m.mods[m.func("_ast.py", "cache_if_frozen_condition").rel]
+        cpaths = [p_ for p_ in _PFc(funcs={}, consts=dict(mod_c.assigns), havoc_on=(), pure=("getattr",)).run(cond) if p_.done == "return" and p_.ret is not None]
+        rvals = sorted({_shc(p_.ret) for p_ in cpaths})
+    except Inconclusive as e:
+        res.unsure(f"A7: cache_if_frozen_condition: {e}")
+        rvals = []
+        recv_txt = ""
+    res.inst(part="condition", returns=rvals)
+    positive = [v_ for v_ in rvals if v_ not in ("0", "False")]
+    if rvals and (len(positive) != 1 or positive[0] not in (f"getattr({recv_txt}, '__frozen__', False)", f"getattr({recv_txt}, '__frozen__', 0)", f"{recv_txt}.is_frozen()", f"{recv_txt}.__frozen__")):
         res.bad(Finding("A7", AST, cond.lineno, "cache_if_frozen_condition", "", "the cache condition is not `the node is frozen`", witness="duplicate field numbers accepted", tag="cache_if_frozen_condition"))
     cc = m.func("bitproto/utils.py", "conditional_cache").node
     res.inst(part="condition", where="conditional_cache")
